@@ -1,9 +1,21 @@
 import os, re
 ID = 'C01'
 UNITS = {'rw': dict(wrap='wrap.cc', new_block=64)}
-BOUNDS = ''
+BOUNDS = ('harness 1 (layout/round trip): every value of every accessor width (8/16/32/64-bit, floats as IEEE bit patterns), accessor symbolic within its '
+          'width group, 0/1/3 filler bytes in front, every offset of a 12-byte BufferWriter; reader accessors (incl. 24/48-bit) on 10 symbolic bytes at cursor 0..2. '
+          'harness 2 (positional writes): prior size 0..8 (cell) with symbolic contents, offset 0..size+4. '
+          'harness 3 (sequences): <= 4 operations (kinds are the cell: all 10x10 ordered pairs + selected triples/quads), every value, block byte, '
+          'block/string length (0..3) and positional offset symbolic (or enumerated as a cell), buffer <= 40 bytes, at most 3 variable-length items per sequence. '
+          'harness 4 (bits): BitWriter 0..24,31..33 bits with optional truncate(any t) and write-after-truncate cells; BitReader over 1..9 symbolic bytes, '
+          'read sizes up to 64 at any bit offset inside the data; writer->reader round trip up to 64 bits')
 STUBS = ['operator new hands out fixed 64-byte blocks (std::string storage); allocation never fails']
-OUTSIDE = []
+OUTSIDE = ['sequences longer than 4 operations / buffers beyond 40 bytes; more than 3 variable-length items in one sequence (measured: 4 symbolic-length blocks exhaust 3 GB)',
+           'host big-endian builds (only the x86-64 little-endian configuration is compiled; the PHOSG_BIG_ENDIAN branches are not)',
+           'BitReader reads beyond the end of its data (BitReader::pread has no bounds check by design)',
+           'a positional write that destroys the NUL terminator of an earlier C string (the reference reader of the sequence harness does not model it; excluded by ASSUME)',
+           'get<T>/pget<T>/put<T>/pput<T> instantiated by the caller with types other than the named accessors',
+           'StringWriter::pput offsets beyond size+4 (growth beyond the modelled heap block); huge offsets are covered in C02',
+           'accessors added to Strings.hh later are not picked up automatically: the accessor table props/C01/acc.h is written by hand (a renamed/removed accessor fails to compile -> inconclusive)']
 ASSUMPTIONS = ['x86-64 little-endian host configuration of Platform.hh']
 
 HERE = os.path.dirname(os.path.abspath(__file__))
@@ -54,7 +66,7 @@ def queries(tier):
     # harness 4: bit streams
     for m in ([0, 1, 7, 8, 9, 20] if quick else list(range(0, 25)) + [31, 32, 33]):
         qs.append(Q('bitwriter_m%d' % m, 'h_bits.c', {'MODE': 0, 'M': m}, unwind=m + 20, desc='BitWriter: %d symbolic bits, optional truncate(t) with any t: MSB-first packing, zero tail, size()' % m, bounds='%d bits, t any 64-bit value' % m))
-    for m, t, m2 in ([(5, 3, 4), (9, 8, 8), (16, 11, 3)] if quick else [(a, t, b) for a in (1, 5, 8, 9, 13, 16, 20) for t in sorted(set([0, a // 2, max(a - 1, 0), a, (a // 8) * 8])) for b in (1, 3, 8, 11)]):
+    for m, t, m2 in ([(5, 3, 4), (9, 8, 8), (16, 11, 3)] if quick else [(a, t, b) for a in (1, 5, 8, 9, 16, 20) for t in sorted(set([0, a // 2, max(a - 1, 0), a, (a // 8) * 8])) for b in (1, 9)]):
         qs.append(Q('bitwriter_trunc_m%d_t%d_%d' % (m, t, m2), 'h_bits.c', {'MODE': 1, 'M': m, 'T': t, 'M2': m2}, unwind=m + m2 + 20, desc='BitWriter: %d bits, truncate(%d), %d more bits: packing continues at bit %d' % (m, t, m2, t), bounds='bits symbolic'))
     for nb, mx in ([(4, 16)] if quick else [(1, 8), (4, 16), (6, 32), (9, 64)]):
         qs.append(Q('bitreader_n%d_s%d' % (nb, mx), 'h_bits.c', {'MODE': 2, 'NBYTES': nb, 'MAXSZ': mx}, unwind=max(mx, nb) + 4, timeout=600,
@@ -66,8 +78,8 @@ def queries(tier):
     if quick:
         seqs = [((0, 1), -1), ((6, 2), -1), ((3, 7), -1), ((4, 10, 8), -1), ((9, 0), -1), ((7, 2), 3), ((1, 7, 5), 1)]
     else:
-        kinds = [0, 1, 2, 3, 4, 5, 6, 7, 8, 9, 10]
-        base = [(a,) for a in kinds] + [(a, b) for a in kinds for b in kinds]
+        kinds = [0, 1, 2, 3, 4, 5, 6, 7, 8, 9]
+        base = [(a,) for a in kinds + [10]] + [(a, b) for a in kinds for b in kinds] + [(10, 10), (10, 6), (0, 10), (10, 7)]
         base += [(0, 7, 1), (5, 7, 0), (6, 7, 6), (7, 7, 2), (2, 6, 5), (10, 3, 6), (4, 8, 9), (1, 5, 10), (6, 6, 6), (3, 0, 7), (7, 0, 7), (8, 7, 4), (1, 7, 5)]
         base += [(1, 6, 7, 2), (0, 5, 6, 3), (7, 2, 7, 0), (6, 10, 4, 7), (9, 8, 1, 0), (2, 7, 0, 7)]
         seqs = []
@@ -79,9 +91,11 @@ def queries(tier):
                 last_is_pput_only = all(x != 7 for x in sq[:-1])
                 if last_is_pput_only or sq in ((5, 7, 0), (1, 6, 7, 2)):
                     seqs.append((sq, -1))
-                for po in range(5):
+                for po in (range(5) if len(sq) == 3 else (0, 1, 3)):
                     if po in (1, 4) and any(sq[i] == 7 and i > 0 and sq[i - 1] == 6 for i in range(len(sq))):
                         continue  # the positional write would hit the terminator of the C string just written (excluded by the harness)
+                    if po == 0 and sq[0] == 6:
+                        continue  # likewise: offset 0 lies inside the leading C string
                     seqs.append((sq, po))
     for sq, po in seqs:
         defs = {'K%d' % i: (sq[i] if i < len(sq) else -1) for i in range(4)}
